@@ -171,3 +171,23 @@ func VH_C04i_Gap() {
 	vAssert("gap-prev", b.year == 1582 && b.month == 10 && b.day == 4)
 	vReach("C04iGap")
 }
+
+// C04j: every Julian Day value of a chunk of day numbers, at the resolution 1/D of the float64 grid there,
+// converts to a valid date-time of the expected civil day (the day rolls over only through 24:00:00).
+// jd = N - 0.5 + r/D with N in [NLO, NHI] and r in [0, D): these are exactly representable float64 values,
+// so every float operation of the time-of-day part is exact; the day part uses host-computed tables.
+func VH_C04j_FromJulianDay() {
+	N := vInt("N", vParam("NLO"), vParam("NHI"))
+	D := vParam("D")
+	r := vInt("r", 0, D-1)
+	jd := float64(N) - 0.5 + float64(r)/float64(D)
+	var t *Solar
+	vAssert("fromjd-no-panic", !vPanics(func() { t = NewSolarFromJulianDay(jd) }))
+	vAssert("fromjd-valid", specValidYmd(t.year, t.month, t.day) && specValidHms(t.hour, t.minute, t.second))
+	// seconds since the civil day N began, rounded to the nearest second (half up), may reach 86400 = next day 00:00:00
+	sec := (2*r*86400 + D) / (2 * D)
+	T := specJDN(t.year, t.month, t.day)
+	vAssert("fromjd-day", (sec < 86400 && T == N) || (sec == 86400 && T == N+1))
+	vAssert("fromjd-time", t.hour*3600+t.minute*60+t.second == sec%86400)
+	vReach("C04j")
+}
